@@ -7,6 +7,9 @@ fn arg(args: &[String], name: &str) -> Option<String> {
 fn main() {
     let args: Vec<String> = std::env::args().collect();
     let prop = args.get(1).cloned().unwrap_or_else(|| "C16".into());
+    if prop == "noop" {
+        return;
+    }
     let seed: u64 = arg(&args, "--seed").and_then(|s| s.parse().ok()).unwrap_or(1);
     let tier = match arg(&args, "--tier").as_deref() {
         Some("thorough") => Tier::Thorough,
